@@ -145,9 +145,11 @@ class Kernel(object):
     # ---- configuration per run -----------------------------------------
     def reset(self, root, mounts=('/',), dirsalt=0, faults=(), umask=0o022, devs=None):
         self.root = root
-        # st_dev of the simulated volumes: 'distinct' (one device per mount point) or 'shared' (the volumes are bind
-        # mounts / several mounts of ONE file system: same st_dev everywhere, rename between them still gives EXDEV)
-        self.devmode = devs or ('shared' if dirsalt % 10 < 3 else 'distinct')
+        # st_dev of the simulated volumes: one device per mount point.  ('shared' - every volume reports the same st_dev
+        # while ismount() still recognises the mount points - cannot happen on a real kernel: os.path.ismount() itself
+        # compares st_dev.  It is what the simulator did before st_dev was emulated and is kept only as an explicit
+        # world option for experiments.)
+        self.devmode = devs or 'distinct'
         self.trace = []
         self.gseq = 0
         self.mounts = sorted(set(['/'] + list(mounts)))
